@@ -3,6 +3,7 @@ package main
 import (
 	"bytes"
 	"fmt"
+	"net"
 	"os"
 	"os/exec"
 	"path/filepath"
@@ -43,10 +44,13 @@ func TestVerifC19P(t *testing.T) {
 		for _, place := range []string{"idle", "waiting-for-headers", "mid-body", "probe-in-flight", "probe-hanging",
 			"waiting-for-headers+same", "waiting-for-headers+other", "mid-body+same", "mid-body+other",
 			// the shutdown timeout left to its documented default (30 s): omitted, or written as 0
-			"waiting-for-headers/default", "mid-body/default", "waiting-for-headers/zero", "idle/default"} {
+			"waiting-for-headers/default", "mid-body/default", "waiting-for-headers/zero", "idle/default",
+			// requests that outlast the grace period on the proxy listener AND on the admin listener at
+			// the same time: the timeout bounds the shutdown as a whole
+			"stuck-on-two-listeners/three"} {
 			shutdownLine := "    shutdown: 2\n"
 			if i := strings.Index(place, "/"); i >= 0 {
-				shutdownLine = map[string]string{"/default": "    handler: 0\n", "/zero": "    shutdown: 0\n"}[place[i:]]
+				shutdownLine = map[string]string{"/default": "    handler: 0\n", "/zero": "    shutdown: 0\n", "/three": "    shutdown: 3\n"}[place[i:]]
 				place = place[:i]
 			}
 			// "+same"/"+other": a second stop signal 150 ms after the first, while the drain is
@@ -73,6 +77,11 @@ func TestVerifC19P(t *testing.T) {
 			}
 			port := freePort()
 			yaml := fmt.Sprintf("server:\n  port: %d\n  timeouts:\n"+shutdownLine+"backends:\n  - name: b0\n    address: %q\nload_balancer:\n  strategy: round_robin\n  websocket_pool:\n    enabled: true\n    max_idle: 2\n    max_active: 4\nhealth_checks:\n  active:\n    enabled: true\n    interval: 9\n    timeout: 8\n    path: %q\nlogging:\n  level: error\n  format: json\n", port, be.URL(), wire.ProbePath)
+			adminPort := 0
+			if place == "stuck-on-two-listeners" {
+				adminPort = freePort()
+				yaml += fmt.Sprintf("admin_api:\n  enabled: true\n  port: %d\nmetrics:\n  enabled: true\n  port: %d\n  path: /metrics\n", adminPort, freePort())
+			}
 			path := filepath.Join(dir, fmt.Sprintf("%s-%d-%d-%d.yaml", place, sig, second, idx))
 			os.WriteFile(path, []byte(yaml), 0o644)
 			cmd := exec.Command(bin, "-config", path)
@@ -133,6 +142,23 @@ func TestVerifC19P(t *testing.T) {
 				}()
 				<-arrived
 				time.Sleep(100 * time.Millisecond)
+			case "stuck-on-two-listeners":
+				arrived := make(chan struct{}, 1)
+				be.Next(&wire.Script{Status: 200, Parts: [][]byte{[]byte(body)}, Delay: 20 * time.Second, Arrived: arrived})
+				go func() {
+					c := &exch{addr: e.addr}
+					c.do(&wire.Request{Method: "GET", Target: "/slow", Header: []wire.HeaderLine{{"Host", "x"}}, NoBody: true}, 30*time.Second)
+					c.close()
+				}()
+				<-arrived
+				// an admin call whose client stalls in the middle of its body
+				if ac, err := net.DialTimeout("tcp", fmt.Sprintf("127.0.0.1:%d", adminPort), 5*time.Second); err == nil {
+					defer ac.Close()
+					fmt.Fprintf(ac, "POST /v1/backends/add HTTP/1.1\r\nHost: admin\r\nContent-Type: application/json\r\nContent-Length: 200\r\n\r\n{\"name\": \"x\",")
+					time.Sleep(200 * time.Millisecond)
+				} else {
+					fail("admin-api-not-listening", err.Error())
+				}
 			case "probe-in-flight", "probe-hanging":
 				// the initial probe round starts with the process and is still in flight
 				select {
@@ -151,15 +177,19 @@ func TestVerifC19P(t *testing.T) {
 			}
 			var werr error
 			didExit := false
+			limit := 2*time.Second + 3*time.Second
+			if place == "stuck-on-two-listeners" {
+				limit = 3*time.Second + 2500*time.Millisecond
+			}
 			select {
 			case werr = <-exited:
 				didExit = true
-			case <-time.After(2*time.Second + 3*time.Second):
+			case <-time.After(limit):
 			}
 			took := time.Since(t0)
 			evals++
 			if !didExit {
-				fail("did-not-exit-within-shutdown-timeout", fmt.Sprintf("still running %v after the signal (shutdown timeout 2s)", took.Round(100*time.Millisecond)))
+				fail("did-not-exit-within-shutdown-timeout", fmt.Sprintf("still running %v after the signal (%s)", took.Round(100*time.Millisecond), strings.TrimSpace(shutdownLine)))
 				cmd.Process.Kill()
 				<-exited
 			} else if werr != nil {
